@@ -42,6 +42,10 @@ def replay_form(p: dict) -> int:
         from .validc import replay_rejection
 
         return replay_rejection(p)
+    if p.get("kind") == "permflag":
+        from .kernelprops import replay_permflag
+
+        return replay_permflag(p)
     if p.get("kind") == "bounds":
         from .kernelprops import replay_bounds
 
